@@ -41,10 +41,11 @@ package snap
 // ---- ring assembly: not verified (data-dependent heuristics, see DESIGN.md); trusted to return without effects on
 // their arguments' lengths. Whether they can panic is NOT assumed: callers treat a panic as possible (maypanic), and
 // C06 covers them with bounded stand-ins only.
+//@ func windingOrderIsCorrect
+//@   trusted "go-spatial winding.Order.OfPoints (library): a pure function of the ring, assumed not to panic"
 //@ func ensureCorrectWindingOrder
-//@   trusted "go-spatial winding order + ReverseClone: returns the ring or a reversed copy"
-//@   ensures len(result) == len(ring)
-//@   ensures forall(i, 0, len(result), result[i] == ring[i] || result[i] == ring[len(ring) - 1 - i])
+//@   ensures[C05,C06] len(result) == len(ring)
+//@   ensures[C05,C06] forall(i, 0, len(result), result[i] == ring[i] || result[i] == ring[len(ring) - 1 - i])
 //@ func cleanupNewRing
 //@   trusted "kmpDeduplicate + splitRing: ring assembly heuristics, only bounded stand-ins (C06)"
 //@   maypanic
@@ -52,8 +53,12 @@ package snap
 //@   trusted "ring assembly heuristic, only bounded stand-ins (C06)"
 //@   maypanic
 //@ func outersToPolygons
-//@   trusted "wraps every outer ring into a polygon"
-//@   ensures len(result) == len(outers)
+//@   loop i
+//@     invariant 0 <= i && i <= len(outers) && len(polygons) == len(outers)
+//@     invariant forall(k, 0, i, len(polygons[k]) == 1 && polygons[k][0] == outers[k])
+//@     decreases len(outers) - i
+//@   ensures[C05,C06] len(result) == len(outers)
+//@   ensures[C05] forall(k, 0, len(outers), len(result[k]) == 1 && result[k][0] == outers[k])
 //@ func matchInnersToPolygons
 //@   trusted "ring assembly heuristic, only bounded stand-ins (C06)"
 //@   maypanic
@@ -132,3 +137,39 @@ package snap
 //@   ensures[C08,C03] forall(id Int, hasKey(result, id) ==> inSlice(tmIDs, id), trigger(hasKey(result, id)))
 //@   ensures[C05] forall(id Int, hasKey(result, id) ==> len(result[id]) > 0, trigger(hasKey(result, id)))
 //@   ensures[C09] !allInGridT(tileMatrixSet, sliceMax(tmIDs), polygon) ==> len(result) == 0 && config.IgnoreOutsideGrid
+
+// ---- C06: the Knuth-Morris-Pratt helpers of the de-duplication, safety and termination only.
+// kmpTable fills table[0 .. max(len(find),2)): table[0] = -1 and 0 <= table[j] < j for j >= 1, which is what keeps the
+// fall-back `cnd = table[cnd]` and the search's `i = table[i]` inside the tables and makes both loops terminate.
+//@ func kmpTable
+//@   requires len(table) >= 2 && len(table) >= len(find)
+//@   modifies table
+//@   loop pos
+//@     invariant 2 <= pos && 0 <= cnd && cnd <= pos - 2 && len(table) >= 2 && len(table) >= len(find)
+//@     invariant table[0] == 0 - 1 && forall(j, 1, pos, 0 <= table[j] && table[j] < j)
+//@     decreases 2 * (len(find) - pos) + cnd
+//@   ensures[C06] table[0] == 0 - 1 && forall(j, 1, len(find), 0 <= table[j] && table[j] < j)
+// kmpSearch: safety and termination. (Whether what it returns is a match is NOT stated here: see DESIGN.md, the order
+// of the two assignments after a partial match differs from the textbook algorithm.)
+//@ func kmpSearch
+//@   requires len(find) >= 1 && (len(find) <= len(corpus) || len(find) <= 2)
+//@   loop m
+//@     invariant 0 <= m && m <= len(corpus) && 0 <= i && i < len(find) && len(table) >= len(find) && len(table) >= 2
+//@     invariant table[0] == 0 - 1 && forall(j, 1, len(find), 0 <= table[j] && table[j] < j)
+//@     decreases (len(corpus) - m) * (len(find) + 1) + (len(find) - i)
+//@   ensures[C06] 0 <= result && (result == len(corpus) || result + len(find) <= len(corpus))
+// kmpSearchAll: safety and termination; every reported start leaves room for find inside the corpus.
+//@ func kmpSearchAll
+//@   requires len(find) >= 1 && (len(find) <= len(corpus) || len(find) <= 2)
+//@   loop offset
+//@     invariant len(find) >= 1 && (len(find) <= len(corpus) || len(find) <= 2)
+//@     invariant 0 <= offset && offset + len(corpus) == old(len(corpus))
+//@     invariant forall(k, 0, len(matches), 0 <= matches[k] && matches[k] + len(find) <= old(len(corpus)))
+//@     decreases len(corpus)
+//@   ensures[C06] forall(k, 0, len(result), 0 <= result[k] && result[k] + len(find) <= len(corpus))
+// ringsAreEqual: never indexes out of range for a non-empty first ring (its own comment accepts a panic for an empty one).
+//@ func ringsAreEqual
+//@   requires len(ringI) >= 1
+//@   loop k
+//@     invariant 0 <= k && k <= ringLen && ringLen == len(ringI) && ringLen == len(ringJ) && 0 <= idx && idx < ringLen
+//@     decreases ringLen - k
